@@ -44,6 +44,18 @@ type in struct {
 	Content []want   `json:"content,omitempty"`
 	Glob    string   `json:"glob,omitempty"`
 	Name    string   `json:"name,omitempty"`
+	// tree mode (EnsureTreeState)
+	Tree     []tdir     `json:"tree,omitempty"`
+	TContent []tcontent `json:"tcontent,omitempty"`
+}
+
+type tdir struct {
+	Path  string  `json:"path"` // "." or a/b
+	Files []entry `json:"files"`
+}
+type tcontent struct {
+	Path    string `json:"path"`
+	Content []want `json:"content"`
 }
 
 // what lives outside the managed directory (symlink targets); never touched by the code under test
@@ -58,6 +70,7 @@ var targets = []string{"../out/r1", "../out/r2", "../out/d1", "../out/missing", 
 // delegates to the real osutil.MemoryFileState / SymlinkFileState.
 type fstate struct {
 	w     want
+	key   string // what is recorded on the first visit (tree mode: dir + "\x00" + name); default the name
 	calls int
 	visit *[]string
 }
@@ -65,7 +78,11 @@ type fstate struct {
 func (f *fstate) State() (io.ReadCloser, int64, os.FileMode, error) {
 	f.calls++
 	if f.calls == 1 {
-		*f.visit = append(*f.visit, f.w.Name)
+		k := f.key
+		if k == "" {
+			k = f.w.Name
+		}
+		*f.visit = append(*f.visit, k)
 	}
 	if f.calls == f.w.FailAt {
 		return nil, 0, 0, errors.New("injected State failure")
@@ -187,6 +204,9 @@ func coqNames(l []string) string {
 var scratchBase = vh.Env("VERIF_SCRATCH_DIR", "")
 
 func exec(i in) vh.Out {
+	if i.Kind == "tree" {
+		return execTree(i)
+	}
 	if i.Kind == "match" {
 		ok, err := filepath.Match(i.Glob, i.Name)
 		must(err)
@@ -448,5 +468,231 @@ func gen(r *vh.Rand, tier string, n int) []in {
 
 func main() {
 	_ = strconv.Itoa
+	if os.Getenv("VERIF_C23_MODE") == "tree" {
+		vh.Run(genTree, exec)
+		return
+	}
 	vh.Run(gen, exec)
+}
+
+// ---------------------------------------------------------------- tree mode: osutil.EnsureTreeState
+
+func coqPath(rel string) string {
+	if rel == "." || rel == "" {
+		return "[]"
+	}
+	parts := strings.Split(rel, "/")
+	items := make([]string, len(parts))
+	for i, p := range parts {
+		items[i] = vh.CoqBytes(p)
+	}
+	return vh.CoqList(items)
+}
+
+func listTree(base string) []tdir {
+	var out []tdir
+	must(filepath.Walk(base, func(p string, fi os.FileInfo, err error) error {
+		must(err)
+		if !fi.IsDir() {
+			return nil
+		}
+		rel, err := filepath.Rel(base, p)
+		must(err)
+		var files []entry
+		for _, e := range listDir(p) {
+			if e.Kind != "dir" && e.Kind != "dirne" {
+				files = append(files, e)
+			}
+		}
+		out = append(out, tdir{Path: rel, Files: files})
+		return nil
+	}))
+	return out
+}
+
+func coqTree(t []tdir) string {
+	items := make([]string, len(t))
+	for i, d := range t {
+		items[i] = "(" + coqPath(d.Path) + ", " + coqDir(d.Files) + ")"
+	}
+	return vh.CoqList(items)
+}
+
+func execTree(i in) vh.Out {
+	syscall.Umask(0)
+	top, err := os.MkdirTemp(scratchBase, "c23t-")
+	must(err)
+	defer os.RemoveAll(top)
+	base := filepath.Join(top, "d")
+	must(os.Mkdir(base, 0755))
+	for _, d := range i.Tree {
+		must(os.MkdirAll(filepath.Join(base, d.Path), 0755))
+		populate(filepath.Join(base, d.Path), d.Files)
+	}
+	before := listTree(base)
+
+	var visit []string
+	content := map[string]map[string]osutil.FileState{}
+	for _, tc := range i.TContent {
+		m := map[string]osutil.FileState{}
+		for _, w := range tc.Content {
+			m[w.Name] = &fstate{w: w, key: tc.Path + "\x00" + w.Name, visit: &visit}
+		}
+		content[tc.Path] = m
+	}
+	syscall.Umask(i.Umask)
+	changed, removed, err := osutil.EnsureTreeState(base, i.Globs, content)
+	syscall.Umask(0)
+	after := listTree(base)
+
+	// directory order: content directories in the order of their first visit, then the other content directories
+	var ord []string
+	seenDir := map[string]bool{}
+	seenFile := map[string]bool{}
+	perDir := map[string][]string{}
+	for _, k := range visit {
+		parts := strings.SplitN(k, "\x00", 2)
+		if !seenDir[parts[0]] {
+			seenDir[parts[0]] = true
+			ord = append(ord, parts[0])
+		}
+		seenFile[k] = true
+		perDir[parts[0]] = append(perDir[parts[0]], parts[1])
+	}
+	cw := make([]string, 0, len(i.TContent))
+	for _, tc := range i.TContent {
+		if !seenDir[tc.Path] {
+			seenDir[tc.Path] = true
+			ord = append(ord, tc.Path)
+		}
+		byName := map[string]want{}
+		for _, w := range tc.Content {
+			byName[w.Name] = w
+		}
+		var items []string
+		for _, n := range perDir[tc.Path] {
+			items = append(items, "("+vh.CoqBytes(n)+", "+coqWant(byName[n])+")")
+		}
+		for _, w := range tc.Content {
+			if !seenFile[tc.Path+"\x00"+w.Name] {
+				items = append(items, "("+vh.CoqBytes(w.Name)+", "+coqWant(w)+")")
+			}
+		}
+		cw = append(cw, "("+coqPath(tc.Path)+", "+vh.CoqList(items)+")")
+	}
+	for _, d := range before {
+		if !seenDir[d.Path] {
+			seenDir[d.Path] = true
+			ord = append(ord, d.Path)
+		}
+	}
+	ordItems := make([]string, len(ord))
+	for k, o := range ord {
+		ordItems[k] = coqPath(o)
+	}
+	globs := make([]string, len(i.Globs))
+	for k, g := range i.Globs {
+		globs[k] = vh.CoqBytes(g)
+	}
+	coq := "(CTree " + vh.CoqList(globs) + " " + vh.CoqN(uint64(i.Umask)) + " [] " + coqTree(before) + " " + vh.CoqList(cw) + " " +
+		vh.CoqList(ordItems) + " " + coqNames(changed) + " " + coqNames(removed) + " " + vh.CoqBool(err != nil) + " " + coqTree(after) + ")"
+	tag := "tree-success"
+	switch {
+	case err == nil && len(changed)+len(removed) == 0:
+		tag = "tree-noop"
+	case err != nil && strings.Contains(err.Error(), "internal error: EnsureTreeState got"):
+		tag = "tree-bad-input"
+	case err != nil:
+		tag = "tree-failed"
+	}
+	tags := []string{tag}
+	if len(after) < len(before) {
+		tags = append(tags, "tree-dirs-removed")
+	}
+	if len(ord) > 1 && len(visit) > 0 {
+		tags = append(tags, "tree-multi-dir")
+	}
+	errs := ""
+	if err != nil {
+		errs = "error"
+	}
+	return vh.Out{Observed: map[string]interface{}{"changed": changed, "removed": removed, "err": errs, "after": after, "visit": visit},
+		Coq: coq, NonTrivial: len(changed)+len(removed) > 0 || err != nil, Tags: tags}
+}
+
+var tDirs = []string{".", "a", "b", "a/x", "c/y/z", "b/q"}
+var tNames = []string{"snap.foo.a", "snap.foo.b", "snap.bar.a", "x.png", "readme"}
+var tGlobs = []string{"snap.foo.*", "*.png", "snap.*.a", "snap.foo.?"}
+
+func genTree(r *vh.Rand, tier string, n int) []in {
+	if n == 0 {
+		n = 150
+	}
+	var ins []in
+	for k := 0; k < n; k++ {
+		i := in{Kind: "tree", Umask: []int{022, 022, 0, 077}[r.Intn(4)]}
+		i.Globs = []string{r.Pick(tGlobs)}
+		if r.Chance(1, 3) {
+			i.Globs = append(i.Globs, r.Pick(tGlobs))
+		}
+		cur := map[string]map[string]entry{}
+		for _, d := range tDirs {
+			if !r.Chance(1, 2) {
+				continue
+			}
+			td := tdir{Path: d}
+			cur[d] = map[string]entry{}
+			for _, nm := range tNames {
+				if r.Chance(2, 5) {
+					e := entry{Name: nm, Kind: "reg", Content: r.Pick(contents), Mode: modes[r.Intn(len(modes))]}
+					if r.Chance(1, 8) {
+						e = entry{Name: nm, Kind: "sym", Target: "/nonexistent-verif-c23"}
+					}
+					td.Files = append(td.Files, e)
+					cur[d][nm] = e
+				}
+			}
+			i.Tree = append(i.Tree, td)
+		}
+		for _, d := range tDirs {
+			if !r.Chance(2, 5) {
+				continue
+			}
+			tc := tcontent{Path: d}
+			for _, nm := range tNames {
+				if matchAny(i.Globs, nm) && r.Chance(1, 2) {
+					var c *entry
+					if e, ok := cur[d][nm]; ok {
+						c = &e
+					}
+					w := randWant(r, nm, c)
+					if w.Kind == "sym" {
+						w.Target = "/nonexistent-verif-c23"
+					}
+					tc.Content = append(tc.Content, w)
+				}
+			}
+			i.TContent = append(i.TContent, tc)
+		}
+		if r.Chance(1, 30) {
+			i.TContent = append(i.TContent, tcontent{Path: r.Pick([]string{"snap.foo.d", "a/snap.foo.d/x", "x.png/y"}),
+				Content: []want{{Name: "snap.foo.a", Kind: "reg", Content: "alpha", Mode: 0644}}})
+		} else if r.Chance(1, 30) {
+			i.TContent = append(i.TContent, tcontent{Path: "a", Content: []want{{Name: r.Pick([]string{"zzz-nomatch", "sub/snap.foo.a"}), Kind: "reg", Content: "alpha", Mode: 0644}}})
+		}
+		if r.Chance(1, 4) {
+			var idx [][2]int
+			for a, tc := range i.TContent {
+				for b := range tc.Content {
+					idx = append(idx, [2]int{a, b})
+				}
+			}
+			if len(idx) > 0 {
+				x := idx[r.Intn(len(idx))]
+				i.TContent[x[0]].Content[x[1]].FailAt = r.Range(1, 3)
+			}
+		}
+		ins = append(ins, i)
+	}
+	return ins
 }
